@@ -115,6 +115,10 @@ def guard_table(prog, res, q, spec, classes):
             nid = int(end.split('@')[1])
             undecided[Renderer(f).render(nid)] = f.loc(nid)
             continue
+        if end == 'loop':
+            # the walk met a loop before the refusal / the store it was looking for: a construct this table does not follow
+            undecided['a loop in the guard prefix (before the first documented stop)'] = f.loc()
+            continue
         if xenv:
             env = dict(env)
             env.update({'[undocumented] ' + k: v for k, v in xenv.items()})
